@@ -315,6 +315,17 @@ func acceptVariants() []*dsl.Program {
 	m := dsl.Mt("Kind", "Body", dsl.K("Alpha", "1"), dsl.K("Beta", "2"))
 	m.PairCommas = 1
 	mk("match pairs without commas", &dsl.Program{Packets: []*dsl.Packet{dsl.Root("Msg", dsl.Sc("u16", "Kind"), m), dsl.Pk("Alpha"), dsl.Pk("Beta")}})
+	for _, variant := range []string{"MetaData block after the packets that use it", "options block after the packets", "MetaData and options after the packets"} {
+		q := &dsl.Program{
+			Meta:    []*dsl.MetaBlock{{Name: "Dict", Entries: []*dsl.MetaEntry{{Name: "Price", Kind: dsl.Scalar, Type: "u64", Doc: "price"}, {Name: "Symbol", Kind: dsl.FixStr, Type: "char", N: 4, Doc: "sym"}, {Name: "LastPx", Kind: dsl.MetaRef, Ref: "Price", Doc: "alias"}}}},
+			Packets: []*dsl.Packet{dsl.Root("Msg", dsl.Mr("Price", ""), dsl.Mr("Symbol", "Sym"), dsl.Rep(dsl.Mr("LastPx", "Hist")), dsl.Ob("Leg", "")), dsl.Pk("Leg", dsl.Mr("Price", "Bid"))}}
+		q.MetaLast = strings.Contains(variant, "MetaData")
+		mk(variant, q)
+		if strings.Contains(variant, "options") {
+			q.OptsLast = true
+			q.Opts = append(q.Opts, dsl.Opt{Name: "LittleEndian", Value: "true", Semi: true})
+		}
+	}
 	mk("forward reference to a later packet", &dsl.Program{Packets: []*dsl.Packet{dsl.Pk("First", dsl.Ob("Later", "")), dsl.Root("Msg", dsl.Ob("First", "")), dsl.Pk("Later", dsl.Sc("u8", "X"))}})
 	return out
 }
